@@ -1,5 +1,6 @@
 import MW.Staking.Facts
 import MW.Inv.WorldStake
+import MW.Inv.WorldRecover
 import MW.Inv.Demo
 /-!
 # C11 — Protocol fee accounting on rewards
@@ -132,6 +133,25 @@ theorem C11_split_world (w : World) (channel ns : String) (coin : Coin) (f : Fau
     exact ⟨by rw [g1, hts t h2'], by rw [g2, hts w.self (fun e => hs e.symm)]⟩
   · intro htre
     rw [hw, (h6 htre).1, hts w.self (fun e => hs e.symm)]
+
+open MW.Chain in
+/-- **FeeWithdraw on the chain model's ledgers**: a committed FeeWithdraw was sent by the admin, for at
+most the accrued amount, and moved exactly that amount from the contract's bank balance to the configured
+treasury — to nobody else — lowering the fee counter by the same amount. -/
+theorem C11_fee_withdraw_world {w : World} {sender : String} {amount : Nat} {f : Faults} {txi : Option Nat}
+    (htre : w.c.config.feeCfg.treasury ≠ some w.self)
+    (hc : (step w (.exec sender [] (.feeWithdraw amount) f txi)).committed = true) :
+    ∃ t, w.c.config.feeCfg.treasury = some t ∧ w.c.admin = some sender ∧ amount ≤ w.c.st.totalFees
+      ∧ (step w (.exec sender [] (.feeWithdraw amount) f txi)).w.c.st.totalFees = w.c.st.totalFees - amount
+      ∧ (step w (.exec sender [] (.feeWithdraw amount) f txi)).w.bal t w.c.config.proto.ibcDenom
+          = w.bal t w.c.config.proto.ibcDenom + amount
+      ∧ amount ≤ w.bal w.self w.c.config.proto.ibcDenom
+      ∧ (step w (.exec sender [] (.feeWithdraw amount) f txi)).w.bal w.self w.c.config.proto.ibcDenom
+          = w.bal w.self w.c.config.proto.ibcDenom - amount
+      ∧ (∀ a, a ≠ t → a ≠ w.self →
+          (step w (.exec sender [] (.feeWithdraw amount) f txi)).w.bal a w.c.config.proto.ibcDenom
+            = w.bal a w.c.config.proto.ibcDenom) :=
+  fee_withdraw_tx_pays htre hc
 
 /-- non-vacuity: a 10 % fee on 1001 is 100, the remainder 901 -/
 example : checkedMulRatio 10000 1001 100000 = some 100 ∧ checkedSub 1001 100 = some 901 := ⟨rfl, rfl⟩
